@@ -135,11 +135,12 @@ CHECKS = {
              'grammar table: the leaves of a returned tree followed by the unconsumed rest are exactly the input tokens (yield_exact: nothing dropped, duplicated, invented); '
              'an accepted formula covers the whole token list and every other outcome is the parser exception (whole_or_rejected, no_silent_truncation); every node of a '
              'returned tree instantiates, in order, one of the token sets of its class (derivation_sound: a supported function is never accepted with an argument list the '
-             'grammar does not define). On the table regenerated from the source (Tie A): keywords_longest_first, generated_symbols_defined (decide). '
+             'grammar does not define); the parser looks at token CLASSES only - relabelling the texts of the tokens relabels the tree and changes neither acceptance nor shape '
+             '(kinds_only), so ";" and "," are interchangeable as separators for every formula and grammar (separator_blind). On the table regenerated from the source (Tie A): keywords_longest_first, generated_symbols_defined (decide). '
              'Tie B: random derivations of the repository\'s own grammar (all functions, all argument shapes) and mutants, real Lexer + AstBuilder vs the Lean interpreter on the '
              'regenerated table (tree shape / reject), leaves-vs-tokens on the real tree, whitespace and ,/; laws through evaluation.',
-        note='Trusted: Lean kernel; standard axioms; extraction of the grammar from the imported classes; the regex lexer itself is not modelled in Lean - its whitespace/separator '
-             'behaviour is a law checked on the real code; depth exhaustion of the interpreter is excluded by fuel 300 in the driver (generated nesting is far shallower).',
+        note='Trusted: Lean kernel; standard axioms; extraction of the grammar from the imported classes; the regex lexer itself is not modelled in Lean - that both separators lex to SeparatorToken and that whitespace '
+             'is skipped is a law checked on the real code (the parser half of the separator law is the theorem separator_blind); depth exhaustion of the interpreter is excluded by fuel 300 in the driver (generated nesting is far shallower).',
         technique='Lean 4 proof generic in the grammar table (Tie A regenerates the table) + differential correspondence of the interpreter + laws on the real code', design='5/C05'),
     'C06': dict(
         text='Lean 4 theorems: an accepted node consumes at least one token (consumes); for every grammar whose head-symbol relation is ranked (no left recursion) the token-set '
@@ -180,10 +181,11 @@ CHECKS = {
              'occurring in the cell text (scan_sound, by induction over the scan), hence a cell without call syntax - in particular without "(" - is never listed '
              '(no_paren_never_listed), cells whose call syntax is only upper-case identifiers are never listed (only_excel_calls_never_listed), every listed fragment has an '
              'identifier that is not upper-case throughout (listed_is_python_like), with the check disabled the exception is never raised and enabled exactly when a cell is '
-             'listed (disabled_never_raises, enabled_raises_iff), the key is \'title\' + column letters + row (reportKey_shape). NOT proved: completeness of the scanner '
-             '(every Python-like cell is listed) - that direction rests on Tie B. Tie B: per cell text the real scanner vs the Lean scanner and vs an independent hand scanner; '
+             'listed (disabled_never_raises, enabled_raises_iff), the key is \'title\' + column letters + row (reportKey_shape); completeness: a text containing an identifier run immediately followed by "(" with a ")" '
+             'later makes the scan non-empty (scan_complete), and when the text has no upper-case letter at all the cell is listed (flags_python_like). Tie B: per cell text the real scanner vs the Lean scanner and vs an independent hand scanner; '
              'workbooks with fragments planted off the diagonal on several sheets, through openpyxl and the facade, check on/off: exception type, exact key set, fragments.',
-        note='Partial: the "is rejected / is listed" direction (completeness) is established by the differential sweep, not by a theorem. Trusted: Lean kernel; standard axioms; '
+        note='Completeness for texts mixing upper-case calls and Python-like calls (the scan resumes after the first ")" of a match, so a Python-like call nested inside an '
+             'upper-case call\'s arguments is only seen when the argument regex lets it) is established by the differential sweep, not by a theorem. Trusted: Lean kernel; standard axioms; '
              'the model of leftmost non-overlapping regex matching for these two patterns; openpyxl cell.row / column_letter.',
         technique='Lean 4 proof (scanner soundness, gate) over hand model + differential correspondence + independent oracle through the real file path', design='5/C19'),
     'C18': dict(
